@@ -1,10 +1,149 @@
 (* Props_C04.v — property C04: ONLY theorem statements, each closed by [exact] of a lemma
-   from C04_Proofs*, followed by Print Assumptions. *)
-From Verif Require Import Base C04_Model C04_Proofs.
+   from C04_Proofs*, followed by Print Assumptions.
+
+   [run_top E C fault manual p extra s0] is the model of db.Transaction(p) (manual = false) or of
+   tx := db.Begin(); p; tx.Commit()/tx.Rollback() (manual = true) — the function C04_Check
+   evaluates on every case.  E is the environment (SQLite save points, database/sql pool): the
+   theorems hold for EVERY environment obeying the three named laws, and [c04_ref_env_laws]
+   shows that the environment the checker uses obeys them.  [fault] is an arbitrary set of
+   failing driver-operation indices; the programs are arbitrary trees (any depth).
+   Domain flags of the final state: x_rb = a fault hit the ROLLBACK TO of a failing nested block
+   (outside the property: the database refused to undo); x_drop = the dialector dropped a
+   save-point error (breaks gorm's SavePointerDialectorInterface contract; never set when
+   c_report C = true); x_spign = a nested block's SAVEPOINT failed and the enclosing function
+   went on (where the model — and gorm — violate the property, see the _refuted theorem). *)
+From Verif Require Import Base C04_Model C04_Check C04_Proofs C04_Proofs2 C04_Proofs3 C04_Proofs4 C04_Proofs5 C04_Proofs6.
 Open Scope Z_scope.
 
+(* ATOMICITY. The table afterwards is exactly: everything the observed calls kept, if the block
+   function returned nil and COMMIT succeeded; the table before, otherwise (error, panic, failed
+   BEGIN / COMMIT).  "What the calls kept" (spec_final, C04_Check) = successful writes, minus
+   what RollbackTo undid, minus the writes of every nested block whose function failed (nested
+   transactions enabled), resp. nothing undone by a failing nested block itself (disabled). *)
+Theorem c04_atomic : forall E,
+  (forall n t, sq_save E n t = ref_save n t) ->
+  (forall n t, sq_rbto E n t = ref_rbto n t) ->
+  forall C fault manual p extra db0 o x s,
+  run_top E C fault manual p extra (init_st db0) = (o, x, s) ->
+  scoped [] p = true -> x_rb (s_fl s) = false -> x_drop (s_fl s) = false ->
+  s_db s = spec_final (negb (c_nonest C)) o (rev (s_ops s)) db0.
+Proof. exact top_atomic. Qed.
+Print Assumptions c04_atomic.
+
+(* RESULT and USABILITY (partial: needs x_spign = false). The outermost call returns nil iff
+   the function returned nil and COMMIT succeeded, returns the function's error / panic
+   unchanged, returns the BEGIN / COMMIT fault as is; every statement or SavePoint call that
+   reports an error was hit by an injected fault and reports exactly it (a failing nested block
+   leaves the enclosing transaction usable). *)
+Theorem c04_result_usable_partial : forall E,
+  (forall n t, sq_save E n t = ref_save n t) ->
+  (forall n t, sq_rbto E n t = ref_rbto n t) ->
+  forall C fault manual p extra db0 o x s,
+  run_top E C fault manual p extra (init_st db0) = (o, x, s) ->
+  scoped [] p = true -> x_rb (s_fl s) = false -> x_drop (s_fl s) = false ->
+  x_spign (s_fl s) = false ->
+  top_ok o (rev (s_ops s)) = true /\ usable o (rev (s_ops s)) = true.
+Proof. exact top_result. Qed.
+Print Assumptions c04_result_usable_partial.
+
+(* ... and without that hypothesis the statement is false of the model (and of gorm: the
+   witness is corpus/C04/sticky_savepoint_error.json, a known finding) *)
+Theorem c04_result_usable_refuted :
+  exists C p k, scoped [] p = true /\
+    let '(o, x, s) := run_top ref_env C (fault_at (Some k)) false p [] (init_st []) in
+    x_rb (s_fl s) = false /\ x_drop (s_fl s) = false /\ x_spign (s_fl s) = true /\
+    s_db s = [1] /\ top_ok o (rev (s_ops s)) = false /\ usable o (rev (s_ops s)) = false.
+Proof. exact sticky_witness. Qed.
+Print Assumptions c04_result_usable_refuted.
+
+(* atomicity is false for a dialector that drops save-point errors (x_drop): the stock SQLite
+   dialector of gorm.io/driver/sqlite (witness: corpus/C04/stock_dialector_drops_savepoint_error.json) *)
+Theorem c04_atomic_refuted_dropping_dialector :
+  exists C p k, scoped [] p = true /\
+    let '(o, x, s) := run_top ref_env C (fault_at (Some k)) false p [] (init_st []) in
+    x_rb (s_fl s) = false /\ x_drop (s_fl s) = true /\
+    s_db s = [1; 2; 3] /\ spec_final (negb (c_nonest C)) o (rev (s_ops s)) [] = [1; 3].
+Proof. exact stock_witness. Qed.
+Print Assumptions c04_atomic_refuted_dropping_dialector.
+
+(* the whole specification half of the checker holds on the model's own output *)
+Theorem c04_spec_holds : forall E,
+  (forall n t, sq_save E n t = ref_save n t) ->
+  (forall n t, sq_rbto E n t = ref_rbto n t) ->
+  (forall l, bal false l = true -> pool E l = (0, 0)) ->
+  forall C fault manual p extra o x s,
+  run_top E C fault manual p extra (init_st []) = (o, x, s) ->
+  scoped [] p = true ->
+  x_rb (s_fl s) = false -> x_drop (s_fl s) = false -> x_spign (s_fl s) = false ->
+  spec_holds (mk_case manual p extra C None o x (s_db s)
+                (fst (pool E (rev (s_txlog s)))) (snd (pool E (rev (s_txlog s)))) (rev (s_ops s))) = true.
+Proof. exact spec_holds_model. Qed.
+Print Assumptions c04_spec_holds.
+
+(* PROPAGATION, unconditionally (any environment, any faults, any flags, unscoped programs
+   too): when the block function fails, Transaction returns exactly its error / re-raises
+   exactly its panic, at the outermost call and at every nested call of the tree; a nested call
+   whose function returned nil returns nil; a call that never ran its function returns an error *)
+Theorem c04_propagation : forall E C fault manual p extra s0 o x s,
+  run_top E C fault manual p extra s0 = (o, x, s) -> top_prop o = true.
+Proof. exact propagation. Qed.
+Print Assumptions c04_propagation.
+
+(* NESTED ISOLATION: a nested block that fails undoes exactly its own writes (the transaction
+   sees the table as when the block started, the program's save points are untouched) and the
+   enclosing handle carries no error *)
+Theorem c04_nested_isolated : forall E,
+  (forall n t, sq_save E n t = ref_save n t) ->
+  (forall n t, sq_rbto E n t = ref_rbto n t) ->
+  forall C fault b h s r o h1 s1 t stk,
+  c_nonest C = false -> scoped [] b = true ->
+  nested E C fault (run_body E C fault b) h s = (r, o, h1, s1) ->
+  s_tx s = Some (mkTx t stk) -> gen_ok (s_gen s) stk ->
+  x_rb (s_fl s1) = false -> x_drop (s_fl s1) = false ->
+  forall l x, o = OC true l x (cls_of r) -> is_ok r = false ->
+  exists stk', s_tx s1 = Some (mkTx t stk') /\ fu stk' = fu stk
+               /\ (h = None -> x_spign (s_fl s1) = false -> h1 = None).
+Proof. exact nested_isolated. Qed.
+Print Assumptions c04_nested_isolated.
+
+(* SAVEPOINT EXACTNESS: RollbackTo n restores the snapshot of the most recent SavePoint n,
+   keeps that save point and drops the later ones *)
 Theorem c04_savepoint_exact : forall n snap above below w,
   (forall x, In x above -> spname_eqb n (fst x) = false) ->
   ref_rbto n (mkTx w (above ++ (n, snap) :: below)) = Some (mkTx snap ((n, snap) :: below)).
 Proof. exact rbto_exact. Qed.
 Print Assumptions c04_savepoint_exact.
+
+(* EXACTLY ONE END PER TRANSACTION, unconditionally: on every path (nil, error, panic, failed
+   BEGIN, failed COMMIT, failed ROLLBACK) a begun sql.Tx receives a Commit or Rollback before the
+   call returns, and nothing is begun twice *)
+Theorem c04_every_tx_ended : forall E C fault manual p extra db0 o x s,
+  run_top E C fault manual p extra (init_st db0) = (o, x, s) -> bal false (rev (s_txlog s)) = true.
+Proof. exact top_balanced_init. Qed.
+Print Assumptions c04_every_tx_ended.
+
+(* RELEASE: hence, under the database/sql hypothesis (a Tx that got its Commit/Rollback gave
+   its connection back), in_use = 0 and open_tx = 0 after every run *)
+Theorem c04_released : forall E,
+  (forall l, bal false l = true -> pool E l = (0, 0)) ->
+  forall C fault manual p extra db0 o x s,
+  run_top E C fault manual p extra (init_st db0) = (o, x, s) -> pool E (rev (s_txlog s)) = (0, 0).
+Proof. exact released. Qed.
+Print Assumptions c04_released.
+
+(* the environment C04_Check runs the model against obeys the three laws *)
+Theorem c04_ref_env_laws :
+  (forall n t, sq_save ref_env n t = ref_save n t) /\
+  (forall n t, sq_rbto ref_env n t = ref_rbto n t) /\
+  (forall l, bal false l = true -> pool ref_env l = (0, 0)).
+Proof. exact ref_env_laws. Qed.
+Print Assumptions c04_ref_env_laws.
+
+(* non-vacuity: a three-level tree with a save point, a failing grandchild whose error the
+   child returns and the parent ignores, a RollbackTo and a faulted statement meets every
+   hypothesis above and keeps a strict non-empty subset of its writes *)
+Example c04_instance :
+  scoped [] demo_prog = true /\
+  let '(o, x, s) := run_top ref_env cfg_default (fault_at (Some 12%nat)) false demo_prog [] (init_st []) in
+  x_rb (s_fl s) = false /\ x_drop (s_fl s) = false /\ x_spign (s_fl s) = false /\ s_db s = [1; 6].
+Proof. exact demo_instance. Qed.
